@@ -230,9 +230,10 @@ def run_cell(mod_name: str, cell: dict) -> dict:
                     if hit or (nat['error'] and not nat['failures'] and ob.label == 'no-unclassified-exception'):
                         confirmed = (w, nat, hit)
                         break
-                if confirmed is None and ctx.eq_decisions > 0 and cex_model is not None:
-                    # measure-zero path (it contains an equality): look at up to 3 more distinct witnesses
-                    for label_m, w in _more_witnesses(ctx, form, cex_model, 3):
+                if confirmed is None and cex_model is not None:
+                    # z3 likes boundary points, where the float run may take another branch: look at further,
+                    # clearly different witnesses of the same counterexample region
+                    for label_m, w in _more_witnesses(ctx, form, cex_model, 3 if ctx.eq_decisions > 0 else 5):
                         nat = run_native(mod, cell, w)
                         out['native_runs'] += 1
                         tried.append(label_m)
@@ -242,7 +243,7 @@ def run_cell(mod_name: str, cell: dict) -> dict:
                         if hit:
                             confirmed = (w, nat, hit)
                             break
-                    if confirmed is None:
+                    if confirmed is None and ctx.eq_decisions > 0:
                         out['boundary_only'].append({
                             'label': ob.label, 'region': ob.region,
                             'why': 'violated only on a measure-zero path of the real-number model (an exact equality '
@@ -383,7 +384,12 @@ def _more_witnesses(ctx, form, first_model, k):
     models = [first_model]
     for n in range(k):
         for m in models[len(blocks):]:
-            blocks.append(z3.Or([ctx.zvars[i] != symx._zq(m[i]) for i in ctx.inputs.values()] or [z3.BoolVal(False)]))
+            far = []
+            for i in ctx.inputs.values():
+                v = m[i]
+                d = abs(v) / 50 + Fraction(1, 1000)
+                far.append(z3.Or(ctx.zvars[i] > symx._zq(v + d), ctx.zvars[i] < symx._zq(v - d)))
+            blocks.append(z3.Or(far or [z3.BoolVal(False)]))
         try:
             r = ctx.check(neg, *blocks)
         except z3.Z3Exception:
